@@ -1,20 +1,25 @@
 (** * Model of the attribute machinery of xml-info / xml-dom (property C11).
 
-    What /repo does AFTER the fix: commits of branch agent-nsattr (D37, D38, D54, D55), function by
-    function.  Functions are named after the Rust ones (info/src/lib.rs unless stated).
+    What /repo does on branch agent-nsattr2 = main (builder-wf's well-formedness checks, builder-pipeline's
+    recursion detection) + the fixes D37, D38, D54, D55, function by function.  Functions are named after
+    the Rust ones (info/src/lib.rs unless stated).
 
     Entities.  [XmlEntity.values] is the entity literal as parsed: [XmlEntityValue::Text],
     [::Character(num, radix)] and [::Entity(name)] -- the same three shapes as [Spec.AttrNorm.piece],
-    which is reused.  ([::Parameter] is [unimplemented!]: defect D07 of property C03, not generated.)
+    which is reused.  ([::Parameter] is refused with [Error::InvalidData]; not generated.)
 
-    Recursion.  [entity_value_from_name] recurses on entity references with no cycle check.  The model
-    threads fuel and answers [Recursion] when it runs out; the real code overflows the native stack and
-    the process aborts (SIGABRT) -- defect D09, property C03, reproduced with
-    [<!DOCTYPE e [<!ENTITY x "&y;"><!ENTITY y "&x;">]><e a="&x;"/>].  Cyclic tables are excluded from
-    C11 by hypothesis ([wf_table]).
+    Recursion.  [expand_entity] keeps the stack [parents] of the entities being expanded and answers
+    [Error::InvalidData] when a name comes back (WFC No Recursion); [check_entity_ref], run on every
+    entity reference of an attribute value when the node is built, does the same with its [seen] map, so
+    a document with a reachable cycle is refused before any value is asked for.  (Before commit ed2c470
+    the expansion overflowed the native stack: defect D09 of property C03.)  Coq needs a structural
+    argument, so both functions also carry fuel; [S (length table)] is enough because [parents] holds
+    distinct declared names (on well-formed tables this follows from the refinement theorem and
+    [fuel_suffices]); running out of fuel is reported as [Recursion] and never observed.
 
-    Errors.  [error::Error::NotFoundReference] is [Undeclared].  [char_from_char10/16] also fail for
-    numbers that are not scalar values; character references here carry a [char] already. *)
+    Errors.  [Error::NotFoundReference] is [Undeclared], [Error::InvalidData] is [IllFormed].
+    [char_from_char10/16] also fail for numbers that are not legal characters (WFC Legal Character);
+    character references here carry a legal [char] already. *)
 From Coq Require Import List NArith Bool.
 From XmlRs Require Import Base.CPred Spec.AttrNorm.
 Import ListNotations.
@@ -47,7 +52,7 @@ Definition context_entity (dtd : table) (n : name) : ares (list piece) :=
   | None => match m_predefined n with Some v => Ok v | None => Undeclared end
   end.
 
-(** the [for value in entity.values()] loop of [entity_value_from_name(_, _, in_attribute = true)]:
+(** the [for value in entity.values()] loop of [expand_entity(_, _, _, in_attribute = true)]:
     [parsed] is the accumulator, [?] returns the first error *)
 Fixpoint entity_loop (rec : name -> ares str) (parsed : str) (vals : list piece) : ares str :=
   match vals with
@@ -57,13 +62,17 @@ Fixpoint entity_loop (rec : name -> ares str) (parsed : str) (vals : list piece)
   | Text s :: r => entity_loop rec (parsed ++ normalize_ws s) r
   end.
 
-Fixpoint entity_value_from_name (fuel : nat) (dtd : table) (n : name) : ares str :=
+(** [expand_entity(name, context, parents, in_attribute = true)] *)
+Fixpoint m_expand_entity (fuel : nat) (dtd : table) (parents : list name) (n : name) : ares str :=
   match fuel with
   | O => Recursion
-  | S f => bind (context_entity dtd n) (entity_loop (entity_value_from_name f dtd) [])
+  | S f =>
+      if existsb (str_eqb n) parents then IllFormed                  (* WFC: No Recursion *)
+      else bind (context_entity dtd n) (entity_loop (m_expand_entity f dtd (parents ++ [n])) [])
   end.
 
-Definition attr_value_from_name := entity_value_from_name.
+(** [attr_value_from_name(name, context) = expand_entity(name, context, &mut vec![], true)] *)
+Definition attr_value_from_name (fuel : nat) (dtd : table) (n : name) : ares str := m_expand_entity fuel dtd [] n.
 
 (** the loop of [Attribute::normalized_value] over [XmlAttributeValue::{Char, Entity, Text}] *)
 Fixpoint value_loop (rec : name -> ares str) (normalized : str) (vals : list piece) : ares str :=
@@ -97,8 +106,8 @@ Definition normalized_value_f (fuel : nat) (dtd : table) (ty : option atttype) (
   bind (value_loop (attr_value_from_name fuel dtd) [] vals)
        (fun v => Ok (if m_not_cdata ty then split_filter_join v else v)).
 
-(** the Rust has no bound; any fuel above the number of declarations behaves like it on acyclic tables
-    (Proofs/AttrNormProofs.v, [model_fuel_irrelevant]) *)
+(** the Rust has no fuel; any amount above the number of declarations behaves like it on well-formed
+    tables (Proofs/AttrNormProofs.v, [fuel_irrelevant_proof]) *)
 Definition model_value_f := normalized_value_f.
 Definition model_value (dtd : table) (ty : option atttype) (vals : list piece) : ares str :=
   normalized_value_f (S (length dtd)) dtd ty vals.
@@ -169,12 +178,38 @@ Definition m_observe (d : dtd_doc) (el : name) (n : m_node) : m_attr :=
   {| ma_name := mn_name n; ma_value := model_value (entities_of d) ty (mn_vals n);
      ma_ispec := negb (mn_from_dtd n); ma_dspec := negb (mn_from_dtd n); ma_type := ty |}.
 
-(** [XmlDocument::new]: [XmlAttributeValue::new] looks every entity reference up when the node is
-    built ([context.entity(v)?]) -- for default values while the document type declaration is being
-    read (fix D55: entities declared so far are visible), for start-tag attributes afterwards *)
+(** [check_entity_ref(entity, attribute = true, context, seen)] for the entity named [n] (looked up by
+    the caller with [context.entity]): a predefined entity passes; a declared one must not be in
+    progress ([seen[n] = false], here [visiting]: WFC No Recursion), its literal must not produce '<'
+    (WFC No < in Attribute Values) and the entities it refers to must be declared and pass in turn.
+    Entities whose check is complete are skipped by the code; re-checking them gives the same answer. *)
+Fixpoint check_loop (rec : name -> ares unit) (vals : list piece) : ares unit :=
+  match vals with
+  | [] => Ok tt
+  | CharRef c :: r => if c =? 60 then IllFormed else check_loop rec r
+  | EntRef v :: r => bind (rec v) (fun _ => check_loop rec r)
+  | Text s :: r => if existsb (fun c => c =? 60) s then IllFormed else check_loop rec r
+  end.
+
+Fixpoint check_entity_ref (fuel : nat) (ents : table) (visiting : list name) (n : name) : ares unit :=
+  match fuel with
+  | O => Recursion
+  | S f =>
+      match m_find_entity ents n with
+      | None => match m_predefined n with Some _ => Ok tt | None => Undeclared end
+      | Some vals =>
+          if existsb (str_eqb n) visiting then IllFormed
+          else check_loop (check_entity_ref f ents (visiting ++ [n])) vals
+      end
+  end.
+
+(** [XmlAttributeValue::new] on every piece of a literal: [context.entity(v)?] then
+    [check_entity_ref(&entity, true, context, &mut HashMap::new())?] -- for default values while the
+    document type declaration is being read (fix D55: the entities declared so far are visible), for
+    start-tag attributes afterwards *)
 Definition m_refs_found (ents : table) (vals : list piece) : bool :=
   forallb (fun p => match p with
-                    | EntRef n => match context_entity ents n with Ok _ => true | _ => false end
+                    | EntRef n => match check_entity_ref (S (length ents)) ents [] n with Ok _ => true | _ => false end
                     | _ => true end) vals.
 
 Fixpoint m_doctype_ok (seen : table) (d : dtd_doc) : bool :=
@@ -189,4 +224,4 @@ Fixpoint m_doctype_ok (seen : table) (d : dtd_doc) : bool :=
 Definition model_attrs (d : dtd_doc) (el : name) (written : list (name * list piece)) : ares (list m_attr) :=
   if m_doctype_ok [] d && forallb (fun nl => m_refs_found (entities_of d) (snd nl)) written
   then Ok (map (m_observe d el) (m_attributes_nodes d el written))
-  else Undeclared.
+  else IllFormed.
